@@ -64,7 +64,10 @@ TRUSTED = ['z3 quantifier instantiation']
 
 
 def tasks(tier):
-    return ['damp', 'data', 'timestep', 'dump', 'solve', 'canary']
+    # the step handed to _get_timestep comes from Solver._compute_timestep
+    # (C19): its contract is re-proved here
+    return ['damp', 'data', 'timestep', 'dump', 'solve', 'canary',
+            'dep:C19:solver']
 
 
 # ----------------------------------------------------------- numpy vectors
@@ -373,6 +376,9 @@ GENERIC = ('basic', 'noncomm', 'damp', 'adaptive', 'window3', 'at_tf')
 
 # --------------------------------------------------------------------- tasks
 def run_task(task, ctx):
+    if task.startswith('dep:'):
+        from contracts import deps
+        return deps.run_dep(task, ctx)
     repo = Repo()
     m = repo.module(MOD)
     W = m.path
